@@ -29,6 +29,28 @@ for p in props:
         })
     else:
         na.append({"property_id": pid, "reason": T.NA.get(pid, "check not built yet in this session; no claim is made")})
+# the source translator (harness/py2lean.py, DESIGN I.3a): what is added to the claim of the properties it serves
+SRC = {
+    "ip": (" On the source as it reads on this run: the address core (_anonymize_bits, _deanonymize_bits, anonymize, deanonymize, the seeding loop, _is_mask, "
+           "_anonymize_match) is translated from the source text into Lean on every run and proved equal to the model (Proofs/SrcTieIp, SrcTieText); "
+           "Props/SrcIp restates history independence for the translated functions and proves that the stateful _anonymize_match of the source returns "
+           "the pure text-level replacement on every reachable memo.", ["C01", "C02", "C03", "C04", "C05", "C17"]),
+    "secrets": (" The class decision _check_sensitive_item_format (order of the six tests, their pattern literals, the class each selects) is translated "
+                "from the source text on every run and proved equal to the model's classify (Props/SrcSecrets).", ["C07", "C08", "C09"]),
+    "as": (" _generate_as_number_replacement is translated from the source text on every run and proved equal to the model "
+           "(Props/SrcAs: block preservation and range refusal for the translated function).", ["C11"]),
+    "lines": (" The loop body of FileAnonymizer.anonymize_io (which stages, in which order, under which conditions) is translated from the source text on "
+              "every run and proved equal to the model's lineStep (Props/SrcLines).", ["C12", "C13", "C14", "C15"]),
+    "cli": (" main() after _parse_args is translated from the source text on every run and proved to decide exactly as the model's decideArgs for every "
+            "accepted argument vector (Props/SrcCli).", ["C19"]),
+}
+for txt, pids in SRC.values():
+    for c in checks:
+        if c["property_id"] in pids:
+            c["level_claimed"]["text"] += txt
+            c["technique"] += " + source-to-Lean translation of the anchored functions on every run with machine-checked tie theorems"
+            c["level_note"] += (" The translator's per-function mapping rules (harness/py2lean.py) and the primitives of Model/Py.lean are trusted; "
+                                "the control and data flow of the translated functions is not.")
 m = {
     "version": 1,
     "setup_cmd": "/venv/bin/python check.py --setup",
@@ -36,7 +58,7 @@ m = {
               "baseline_off_cmd": "cd /repo && /venv/bin/python -m pytest -ra -q -p no:cacheprovider --timeout=900 --continue-on-collection-errors",
               "source_commits": [], "add_only": True},
     "engines": [{"name": "lean4-proof+correspondence", "path": "lean/", "serves_properties": [c["property_id"] for c in checks],
-                 "kind_free_text": "Lean 4 theorems about a hand-written executable model (lean/Netconan), tied to /repo on every run by a generator of data tables and a differential correspondence between the compiled model driver and the live Python code"}],
+                 "kind_free_text": "Lean 4 theorems about a hand-written executable model (lean/Netconan), tied to /repo on every run by a source-to-Lean translator for the anchored functions (with tie theorems), a generator of data tables and a differential correspondence between the compiled model driver and the live Python code"}],
     "checks": checks,
     "notes": T.NOTES,
     "not_applicable": na,
